@@ -9,7 +9,7 @@ from typing import Dict, List, Optional, Set, Tuple
 from .. import tables
 from ..cfg import CFG
 from ..model import AnalysisError, Class, Func, own_nodes, unparse
-from ..util import calls, const_str, names_in
+from ..util import assignments_to, calls, const_str, names_in
 
 EXPLANATION = (
     "Decides structural clauses of C09, not the cut/merge round trip or valences (RDKit computations over all molecules): (M1) in "
@@ -394,7 +394,103 @@ def rule_m5(ctx) -> None:
     ctx.require(n >= 1, "no loop over the live compound list found in the merge machinery")
 
 
+def rule_m6(ctx) -> None:
+    """MergeRule.apply may swap its two boundaries before merging.  The compound
+    that receives the merged molecule, loses a boundary, inherits the other
+    compound's rules and is returned must be the compound *of the boundary that is
+    removed* at that point of the function - not one looked up before the swap."""
+    ctx.rule("C09-M6", "in MergeRule.apply the updated / extended / returned compound is <b>.compound of the boundary b removed by update(), as b is bound at that point", 2)
+    prog = ctx.prog
+    f = prog.func(RULES + ".MergeRule.apply")
+    cfg = CFG(f.node)
+
+    def rebinds(name):
+        out = []
+        for n in own_nodes(f.node):
+            if isinstance(n, (ast.Assign, ast.AugAssign, ast.AnnAssign)):
+                tg = n.targets if isinstance(n, ast.Assign) else [n.target]
+                if any(isinstance(x, ast.Name) and x.id == name for t in tg for x in ast.walk(t)):
+                    out.append(n)
+        return out
+
+    def owner(expr, at):
+        """(boundary name, None) if ``expr`` denotes <boundary>.compound as bound at ``at``; else (None, reason)"""
+        if isinstance(expr, ast.Attribute) and expr.attr == "compound" and isinstance(expr.value, ast.Name):
+            return expr.value.id, None
+        if isinstance(expr, ast.Name):
+            asg = assignments_to(f, expr.id)
+            if len(asg) != 1:
+                return None, "%s has %d assignments" % (expr.id, len(asg))
+            stmt, v, _i = asg[0]
+            if not (isinstance(v, ast.Attribute) and v.attr == "compound" and isinstance(v.value, ast.Name)):
+                return None, "%s is not <boundary>.compound" % expr.id
+            b = v.value.id
+            a_id, u_id = cfg.node_of(stmt), cfg.node_of(at)
+            after = cfg.reachable_from(a_id) if a_id is not None else set()
+            for r in rebinds(b):
+                r_id = cfg.node_of(r)
+                if r_id is not None and r_id != a_id and r_id in after and u_id in cfg.reachable_from(r_id):
+                    return None, "%s = %s.compound is taken at line %d, but %s is re-bound at line %d before the use at line %d" % (expr.id, b, stmt.lineno, b, r.lineno, at.lineno)
+            return b, None
+        return None, "unrecognised receiver %s" % unparse(expr)[:40]
+
+    ups = [c for c in calls(f) if isinstance(c.func, ast.Attribute) and c.func.attr == "update" and len(c.args) == 2 and isinstance(c.args[1], ast.Name)]
+    ctx.require(ups, "MergeRule.apply no longer calls <compound>.update(mol, boundary)")
+    removed = None
+    for c in ups:
+        b, why = owner(c.func.value, c)
+        removed = c.args[1].id
+        ok = b == removed
+        ctx.instance("C09-M6", "update(): receiver %s is the compound of the removed boundary %s" % (unparse(c.func.value), removed), f.loc(c), ok=ok, reason=why or "")
+        if not ok:
+            ctx.finding("C09-M6", "rules.MergeRule.apply:update-receiver", f.loc(c), "the compound that is updated is not the compound of the boundary that is removed from it (%s): after a swap the merged compound keeps an open boundary" % (why or "receiver belongs to %s, removed boundary is %s" % (b, removed)))
+    for c in calls(f):
+        if isinstance(c.func, ast.Attribute) and c.func.attr == "extend" and isinstance(c.func.value, ast.Attribute) and c.func.value.attr == "rules" and c.args and isinstance(c.args[0], ast.Attribute) and c.args[0].attr == "rules":
+            tb, why1 = owner(c.func.value.value, c)
+            sb, why2 = owner(c.args[0].value, c)
+            ok = tb == removed and sb is not None and sb != tb
+            ctx.instance("C09-M6", "rules carried over from %s.compound into %s.compound" % (sb, tb), f.loc(c), ok=ok, reason=why1 or why2 or "")
+            if not ok:
+                ctx.finding("C09-M6", "rules.MergeRule.apply:rules-carry-over", f.loc(c), "the rules are not carried from the absorbed compound into the merged one (%s)" % (why1 or why2 or "target %s, source %s" % (tb, sb)))
+    for r in [n for n in own_nodes(f.node) if isinstance(n, ast.Return) and n.value is not None]:
+        b, why = owner(r.value, r)
+        ok = b == removed
+        ctx.instance("C09-M6", "returns the merged compound (%s)" % unparse(r.value), f.loc(r), ok=ok, reason=why or "")
+        if not ok:
+            ctx.finding("C09-M6", "rules.MergeRule.apply:returned-compound", f.loc(r), "the compound returned is not the one that was merged into (%s)" % (why or "returns compound of %s, merged into %s" % (b, removed)))
+
+
+def rule_m7(ctx) -> None:
+    """Who may write a compound's molecule: the methods of Compound and the
+    rule / action classes (which record themselves, M1).  The orchestration
+    (plain functions of the merge machinery) only calls them; a molecule it
+    assigns itself is not explained by any recorded rule."""
+    ctx.rule("C09-M7", "<compound>.mol is assigned only by methods of Compound and of the rule/action classes", 3)
+    prog = ctx.prog
+    n_ok = 0
+    for q, f in sorted(prog.functions.items()):
+        if f.module.name not in MACHINERY:
+            continue
+        for n in own_nodes(f.node):
+            if isinstance(n, (ast.Assign, ast.AugAssign, ast.AnnAssign)):
+                tg = n.targets if isinstance(n, ast.Assign) else [n.target]
+                for t in tg:
+                    if isinstance(t, ast.Attribute) and t.attr == "mol" and isinstance(t.ctx, ast.Store):
+                        root = f
+                        while root.parent is not None:
+                            root = root.parent
+                        in_layer = root.cls is not None and (root.cls.name == "Compound" or root.module.name == RULES)
+                        ctx.instance("C09-M7", "%s assigns %s" % (q.split("synrbl.", 1)[-1], unparse(t)), f.loc(n), ok=in_layer)
+                        if in_layer:
+                            n_ok += 1
+                        else:
+                            ctx.finding("C09-M7", "%s:assigns-mol" % q.split("synrbl.", 1)[-1], f.loc(n), "%s replaces the molecule of a compound outside the rule layer (%s): the rules reported for the product no longer account for its atoms" % (f.name, unparse(n)[:60]))
+    ctx.require(n_ok >= 3, "fewer than 3 molecule writers found in the rule layer (%d)" % n_ok)
+
+
 def check(ctx) -> None:
+    rule_m7(ctx)
+    rule_m6(ctx)
     rule_m1(ctx)
     rule_m2(ctx)
     rule_m3(ctx)
